@@ -331,3 +331,227 @@ func TestQuotaProducersProbe(t *testing.T) {
 		vkit.CaseN(tQuota, vkit.Hash(*c), reps, waits >= 1 && c.Soft < c.Hard, []string{"kind:" + c.Kind, fmt.Sprintf("soft<hard:%v", c.Soft < c.Hard)}, func() any { return *c })
 	})
 }
+
+// ---------------------------------------------------------------------
+// "a call made while the condition already holds does not block", for
+// contents that came about through forced pushes
+
+// A bounded deque (capacity 1-3) is filled, then pushed into by force
+// (which evicts at the other end) and partly popped again; as long as Len()
+// says that there are items, WaitFront / WaitBack / Distributor.Receive
+// return one at once, and once it is empty a waiter is released by the next
+// (forced) push.
+
+const tForce = "TestWaitAfterForcedPushes"
+
+type forceCase struct {
+	Capacity int      `json:"capacity"`
+	Ops      []string `json:"ops"`  // force-back | force-front | push-back | push-front | pop-front | pop-back
+	Wait     string   `json:"wait"` // front | back | receive | receive-nonblocking-distributor
+	Procs    int      `json:"gomaxprocs"`
+}
+
+func runForce(c *forceCase) (string, string) {
+	if c.Procs > 0 {
+		old := runtime.GOMAXPROCS(c.Procs)
+		defer runtime.GOMAXPROCS(old)
+	}
+	limit := vkit.Limit()
+	dq, err := pubsub.NewDeque[int](pubsub.DequeOptions{Capacity: c.Capacity})
+	if err != nil {
+		return "harness", err.Error()
+	}
+	defer dq.Close()
+	for i, op := range c.Ops {
+		v := i + 1
+		switch op {
+		case "force-back":
+			_ = dq.ForcePushBack(v)
+		case "force-front":
+			_ = dq.ForcePushFront(v)
+		case "push-back":
+			_ = dq.PushBack(v)
+		case "push-front":
+			_ = dq.PushFront(v)
+		case "pop-front":
+			_, _ = dq.PopFront()
+		case "pop-back":
+			_, _ = dq.PopBack()
+		}
+	}
+	wait := dq.WaitFront
+	switch c.Wait {
+	case "back":
+		wait = dq.WaitBack
+	case "receive":
+		wait = dq.Distributor().Receive
+	case "receive-nonblocking-distributor":
+		wait = dq.DistributorNonBlocking().Receive
+	}
+	ctx, cancel := context.WithCancel(context.Background())
+	defer cancel()
+	n := dq.Len()
+	for k := 0; k < n; k++ {
+		var werr error
+		done := make(chan struct{})
+		go func() { _, werr = wait(ctx); close(done) }()
+		select {
+		case <-done:
+			if werr != nil {
+				return "wait-error", fmt.Sprintf("after %v (capacity %d): Len() is %d but the blocking pop %d (%s) returned %v", c.Ops, c.Capacity, n-k, k, c.Wait, werr)
+			}
+		case <-time.After(limit):
+			return "condition-holds", fmt.Sprintf("after %v (capacity %d): Len() is %d, yet the blocking pop (%s) does not return: a call made while its condition holds blocks", c.Ops, c.Capacity, n-k, c.Wait)
+		}
+	}
+	// empty now: a waiter parks and the next forced push releases it
+	done := make(chan struct{})
+	var got int
+	var werr error
+	base := asleep()
+	go func() { got, werr = wait(ctx); close(done) }()
+	vkit.Eventually(limit, func() bool { return asleep() > base })
+	_ = dq.ForcePushBack(777)
+	select {
+	case <-done:
+		if werr != nil || got != 777 {
+			return "wake", fmt.Sprintf("a waiter on the empty deque was released with (%d, %v) by ForcePushBack(777)", got, werr)
+		}
+	case <-time.After(limit):
+		return "wake", fmt.Sprintf("after %v: a waiter (%s) parked on the empty deque is not released by ForcePushBack (Len %d)", c.Ops, c.Wait, dq.Len())
+	}
+	return "", ""
+}
+
+func TestWaitAfterForcedPushes(t *testing.T) {
+	var rc forceCase
+	if ok, err := vkit.ReplayCase(tForce, &rc); err != nil {
+		t.Fatal(err)
+	} else if ok {
+		if k, why := runForce(&rc); why != "" {
+			vkit.Fail(t, tForce, "C07:forced/"+k, rc, "%s", why)
+		}
+		return
+	}
+	rapid.Check(t, func(t *rapid.T) {
+		if vkit.AlreadyFailed(tForce) {
+			return
+		}
+		c := &forceCase{
+			Capacity: rapid.IntRange(1, 3).Draw(t, "capacity"),
+			Ops:      rapid.SliceOfN(rapid.SampledFrom([]string{"force-back", "force-back", "force-front", "force-front", "push-back", "push-front", "pop-front", "pop-back"}), 1, 10).Draw(t, "ops"),
+			Wait:     rapid.SampledFrom([]string{"front", "back", "receive", "receive-nonblocking-distributor"}).Draw(t, "wait"),
+			Procs:    rapid.SampledFrom([]int{1, 4, 16}).Draw(t, "gomaxprocs"),
+		}
+		if k, why := runForce(c); why != "" {
+			vkit.Fail(t, tForce, "C07:forced/"+k, *c, "%s", why)
+		}
+		forced := 0
+		for _, o := range c.Ops {
+			if o == "force-back" || o == "force-front" {
+				forced++
+			}
+		}
+		vkit.Case(tForce, vkit.Hash(*c), forced > 0 && len(c.Ops) > c.Capacity, []string{fmt.Sprintf("capacity:%d", c.Capacity), "wait:" + c.Wait}, func() any { return *c })
+	})
+}
+
+// ---------------------------------------------------------------------
+// Close releases everything that is parked on the container - also the
+// blocking iterators, which park at the end of a deque that is not empty
+
+const tCloseIter = "TestCloseReleasesParkedIterators"
+
+type closeIterCase struct {
+	Kind    string `json:"kind"` // queue | deque | deque-reverse
+	Items   int    `json:"items"`
+	Readers int    `json:"readers"`
+	Procs   int    `json:"gomaxprocs"`
+}
+
+func runCloseIter(c *closeIterCase) (string, string) {
+	if c.Procs > 0 {
+		old := runtime.GOMAXPROCS(c.Procs)
+		defer runtime.GOMAXPROCS(old)
+	}
+	limit := vkit.Limit()
+	ctx, cancel := context.WithCancel(context.Background())
+	defer cancel()
+	var mk func() func(context.Context) (int, error)
+	var closeBox func() error
+	if c.Kind == "queue" {
+		q := pubsub.NewUnlimitedQueue[int]()
+		for i := 0; i < c.Items; i++ {
+			_ = q.Add(i)
+		}
+		mk, closeBox = func() func(context.Context) (int, error) { return q.Iterator().ReadOne }, q.Close
+	} else {
+		dq := pubsub.NewUnlimitedDeque[int]()
+		for i := 0; i < c.Items; i++ {
+			_ = dq.PushBack(i)
+		}
+		closeBox = dq.Close
+		mk = func() func(context.Context) (int, error) { return dq.ProducerBlocking().Iterator().ReadOne }
+		if c.Kind == "deque-reverse" {
+			mk = func() func(context.Context) (int, error) { return dq.ProducerReverseBlocking().Iterator().ReadOne }
+		}
+	}
+	base := asleep()
+	var wg sync.WaitGroup
+	ends := make([]error, c.Readers)
+	for r := 0; r < c.Readers; r++ {
+		read := mk()
+		wg.Add(1)
+		go func(r int) {
+			defer wg.Done()
+			for {
+				if _, err := read(ctx); err != nil {
+					ends[r] = err
+					return
+				}
+			}
+		}(r)
+	}
+	// every reader has read everything and is parked at the end
+	if !vkit.Eventually(limit, func() bool { return asleep()-base >= c.Readers }) {
+		return "harness", "the readers did not park"
+	}
+	_ = closeBox()
+	done := make(chan struct{})
+	go func() { wg.Wait(); close(done) }()
+	select {
+	case <-done:
+	case <-time.After(limit):
+		return "close", fmt.Sprintf("%d blocking iterators (%s) parked at the end of a container holding %d items have not all returned %v after Close", c.Readers, c.Kind, c.Items, limit)
+	}
+	return "", ""
+}
+
+func TestCloseReleasesParkedIterators(t *testing.T) {
+	var rc closeIterCase
+	if ok, err := vkit.ReplayCase(tCloseIter, &rc); err != nil {
+		t.Fatal(err)
+	} else if ok {
+		for i := 0; i < 20; i++ {
+			if k, why := runCloseIter(&rc); why != "" {
+				vkit.Fail(t, tCloseIter, "C07:iterator/"+k, rc, "%s (repetition %d)", why, i)
+			}
+		}
+		return
+	}
+	rapid.Check(t, func(t *rapid.T) {
+		if vkit.AlreadyFailed(tCloseIter) {
+			return
+		}
+		c := &closeIterCase{
+			Kind:    rapid.SampledFrom([]string{"queue", "deque", "deque-reverse"}).Draw(t, "kind"),
+			Items:   rapid.IntRange(0, 5).Draw(t, "items"),
+			Readers: rapid.IntRange(1, 3).Draw(t, "readers"),
+			Procs:   rapid.SampledFrom([]int{1, 4, 16}).Draw(t, "gomaxprocs"),
+		}
+		if k, why := runCloseIter(c); why != "" {
+			vkit.Fail(t, tCloseIter, "C07:iterator/"+k, *c, "%s", why)
+		}
+		vkit.Case(tCloseIter, vkit.Hash(*c), c.Items > 0, []string{"kind:" + c.Kind}, func() any { return *c })
+	})
+}
